@@ -30,6 +30,7 @@ from collections.abc import Iterator, Mapping
 from zipfile import ZipFile, ZipInfo
 import io
 import os
+import posixpath
 
 from srctools import StringPath
 from srctools.keyvalues import Keyvalues
@@ -68,6 +69,16 @@ def get_filesystem(path: str) -> 'FileSystem[Any]':
     if ext == '.vpk':
         return VPKFileSystem(path)
     raise ValueError(f'Unrecognised filesystem for "{path}"')
+
+
+def _normalise_name(name: str) -> str:
+    """Produce the key used to find files inside archives.
+
+    Case and the kind of slash are insignificant. Like for a real directory ``./`` segments,
+    doubled and trailing slashes are ignored. The root folder becomes an empty string.
+    """
+    name = posixpath.normpath(name.replace('\\', '/')).casefold()
+    return '' if name == '.' else name
 
 
 def _is_inside(filename: str, folder: str) -> bool:
@@ -443,7 +454,8 @@ class VirtualFileSystem(FileSystem[str]):
         """Convert paths to one representation."""
         if isinstance(path, File):
             path = path.path
-        return os.path.normpath(path).replace('\\', '/').casefold()
+        # Convert first, on POSIX systems normpath() does not treat backslashes as separators.
+        return os.path.normpath(path.replace('\\', '/')).replace('\\', '/').casefold()
 
     def open_bin(self, name: Union[str, File[Self]]) -> BinaryIO:
         """Return a bytes buffer for a 'file'."""
@@ -605,7 +617,7 @@ class ZipFileSystem(FileSystem[ZipInfo]):
     def walk_folder(self, folder: str = '') -> Iterator[File[Self]]:
         """Yield files in a folder."""
         # \\ is not allowed in zips.
-        folder = folder.replace('\\', '/').casefold()
+        folder = _normalise_name(folder)
         for filename, fileinfo in self._name_to_info.items():
             if _is_inside(filename, folder):
                 yield File(self, fileinfo.filename, fileinfo)
@@ -620,9 +632,8 @@ class ZipFileSystem(FileSystem[ZipInfo]):
         if isinstance(name, File):
             info = self._get_data(name)
         else:
-            name = name.replace('\\', '/')
             try:
-                info = self._name_to_info[name.casefold()]
+                info = self._name_to_info[_normalise_name(name)]
             except KeyError:
                 raise FileNotFoundError(f'{self.path}:{name}') from None
 
@@ -644,13 +655,13 @@ class ZipFileSystem(FileSystem[ZipInfo]):
     def _get_file(self, name: str) -> File[Self]:
         name = name.replace('\\', '/')
         try:
-            info = self._name_to_info[name.casefold()]
+            info = self._name_to_info[_normalise_name(name)]
         except KeyError:
             raise FileNotFoundError(f'{self.path}:{name}') from None
         return File(self, name, info)
 
     def _file_exists(self, name: str) -> bool:
-        return name.replace('\\', '/').casefold() in self._name_to_info
+        return _normalise_name(name) in self._name_to_info
 
     def _get_cache_key(self, file: File[Self]) -> int:
         """Return the CRC of the VPK file."""
@@ -672,10 +683,10 @@ class VPKFileSystem(FileSystem[VPKFile]):
         }
 
     def _file_exists(self, name: str) -> bool:
-        return name.casefold().replace('\\', '/') in self._name_to_file
+        return _normalise_name(name) in self._name_to_file
 
     def _get_file(self, name: str) -> File[Self]:
-        key = name.casefold().replace('\\', '/')
+        key = _normalise_name(name)
         try:
             file = self._name_to_file[key]
         except KeyError:
@@ -685,7 +696,7 @@ class VPKFileSystem(FileSystem[VPKFile]):
     def walk_folder(self, folder: str = '') -> Iterator[File[Self]]:
         """Yield files in a folder."""
         # All VPK files use forward slashes. The keys are casefolded.
-        folder = folder.replace('\\', '/').casefold()
+        folder = _normalise_name(folder)
         for filename, file in self._name_to_file.items():
             if _is_inside(filename, folder):
                 yield File(self, file.filename, file)
@@ -697,7 +708,7 @@ class VPKFileSystem(FileSystem[VPKFile]):
             file = self._get_data(name)
         else:
             try:
-                file = self._name_to_file[name.casefold().replace('\\', '/')]
+                file = self._name_to_file[_normalise_name(name)]
             except KeyError:
                 raise FileNotFoundError(name) from None
         return io.BytesIO(file.read())
@@ -713,7 +724,7 @@ class VPKFileSystem(FileSystem[VPKFile]):
             file = self._get_data(name)
         else:
             try:
-                file = self._name_to_file[name.casefold().replace('\\', '/')]
+                file = self._name_to_file[_normalise_name(name)]
             except KeyError:
                 raise FileNotFoundError(name) from None
         # Wrap the data to treat it as bytes, then
